@@ -39,11 +39,11 @@ claimed = {
          "scope is the listed functions only: about 110 bound commands (completion, incremental search, accept-line family, dump-*, editor commands) are not covered; that the main loop re-establishes each command's precondition (cursor re-clamped by CheckCommand, components never nil) is A-LOOP; functions marked assume_nopanic are counted for their postconditions only; deadlock / blocked-in-read (goroutines, channels) not decided; termination of uncontracted callees is listed as a gap per call site in the evidence; 6 keyboard-reachable panics fixed, known findings shared with C05 (ReadKey, non-EOF read error spin)"),
 }
 not_applicable = {
+ "C10": "what decides durability is outside the code a contract can be put on: the record format and its round trip are encoding/json's, line splitting and its 64 KiB token limit are bufio.Scanner's, append atomicity and what a crash leaves behind are the kernel's. Every one of them would enter as an assumed contract (and the JSON link needs a specification over an interface-boxed anonymous struct, which the contract language cannot name), leaving about twenty lines of glue in file.go whose proof would restate its assumptions; the two defects the property text itself names (reader stops at the first record over 64 KiB; a torn tail swallows the next append) are consequences of those library behaviours, not of an obligation on repository code. DESIGN.md §4 C10",
  "C04": "needs a VT100 cell-grid interpreter of the emitted byte stream as oracle; contracts on the repository's functions cannot state what a terminal shows (DESIGN.md §4 C04)",
  "C20": "quantifies over interleavings of the SIGWINCH goroutine / concurrent Printf with the main loop; the VC generator is sequential and there is no lock to attach a guarded_by contract to (DESIGN.md §4 C20)",
 }
 pending = {
- "C10": "not yet claimed: assumed-library layer not reached yet (DESIGN.md §4 C10)",
 }
 import os, sys
 checks = []
